@@ -4,6 +4,7 @@ package c02
 import (
 	"fmt"
 	"sort"
+	"strconv"
 	"strings"
 
 	"ariga.io/atlas/sql/schema"
@@ -105,11 +106,11 @@ func Describe(prefix string, cs []schema.Change) []string {
 		case *schema.ModifyPrimaryKey:
 			out = append(out, prefix+"ModifyPrimaryKey("+kinds(c.Change)+")")
 		case *schema.AddForeignKey:
-			out = append(out, prefix+"AddForeignKey("+c.F.Symbol+")")
+			out = append(out, prefix+"AddForeignKey("+fkLabel(c.F.Symbol, c.F.RefTable.Name)+")")
 		case *schema.DropForeignKey:
-			out = append(out, prefix+"DropForeignKey("+c.F.Symbol+")")
+			out = append(out, prefix+"DropForeignKey("+fkLabel(c.F.Symbol, c.F.RefTable.Name)+")")
 		case *schema.ModifyForeignKey:
-			out = append(out, prefix+"ModifyForeignKey("+c.To.Symbol+","+kinds(c.Change)+")")
+			out = append(out, prefix+"ModifyForeignKey("+fkLabel(c.To.Symbol, c.From.RefTable.Name)+","+kinds(c.Change)+")")
 		case *schema.AddCheck:
 			out = append(out, prefix+"AddCheck("+c.C.Name+"|"+c.C.Expr+")")
 		case *schema.DropCheck:
@@ -421,12 +422,13 @@ func Apply(dialect string, m *gm.Schema, e EditRef) ([]string, error) {
 		parts := strings.SplitN(e.Arg, ">", 2) // col>reftable (references its first PK column)
 		ref := m.Table(parts[1])
 		t.FKs = append(t.FKs, gm.FK{Name: e.Obj, Cols: []string{parts[0]}, RefTable: parts[1], RefCols: []string{ref.PK[0].Col}, OnDelete: "CASCADE", OnUpdate: "CASCADE"})
-		return []string{p + "AddForeignKey(" + e.Obj + ")"}, nil
+		return []string{p + "AddForeignKey(" + fkLabel(e.Obj, parts[1]) + ")"}, nil
 	case "drop-fk":
 		for i := range t.FKs {
 			if t.FKs[i].Name == e.Obj {
+				lbl := fkLabel(e.Obj, t.FKs[i].RefTable)
 				t.FKs = append(t.FKs[:i], t.FKs[i+1:]...)
-				return []string{p + "DropForeignKey(" + e.Obj + ")"}, nil
+				return []string{p + "DropForeignKey(" + lbl + ")"}, nil
 			}
 		}
 		return nil, fmt.Errorf("harness: drop-fk %+v", e)
@@ -435,7 +437,7 @@ func Apply(dialect string, m *gm.Schema, e EditRef) ([]string, error) {
 		if err != nil {
 			return nil, err
 		}
-		kind := ""
+		kind, lbl := "", fkLabel(e.Obj, f.RefTable)
 		swap := func(a string) string {
 			if a == "CASCADE" {
 				return "SET NULL"
@@ -460,7 +462,7 @@ func Apply(dialect string, m *gm.Schema, e EditRef) ([]string, error) {
 			}
 		}
 		// kinds() renders flags in a fixed order; normalise the expectation the same way
-		return []string{p + "ModifyForeignKey(" + e.Obj + "," + orderKinds(kind) + ")"}, nil
+		return []string{p + "ModifyForeignKey(" + lbl + "," + orderKinds(kind) + ")"}, nil
 	case "add-check":
 		t.Checks = append(t.Checks, gm.Check{Name: e.Obj, Expr: e.Arg})
 		return []string{p + "AddCheck(" + e.Obj + "|" + e.Arg + ")"}, nil
@@ -573,6 +575,14 @@ func Permute(s *schema.Schema, seed int64) {
 			}
 		}
 		shuffle(len(t.ForeignKeys), func(i, j int) { t.ForeignKeys[i], t.ForeignKeys[j] = t.ForeignKeys[j], t.ForeignKeys[i] })
+		// positional labels of unnamed keys (SQLite) follow the declaration order
+		pos := 0
+		for _, fk := range t.ForeignKeys {
+			if _, err := strconv.ParseUint(fk.Symbol, 10, 64); err == nil {
+				fk.Symbol = strconv.Itoa(pos)
+				pos++
+			}
+		}
 		// checks live among the attributes: shuffle the attribute list
 		shuffle(len(t.Attrs), func(i, j int) { t.Attrs[i], t.Attrs[j] = t.Attrs[j], t.Attrs[i] })
 	}
@@ -731,4 +741,14 @@ func MergeModify(ds []string) []string {
 		out[a.idx] = key + "," + strings.Join(ks, "+") + ")"
 	}
 	return out
+}
+
+// fkLabel: a foreign key written without a name carries its position as its label (SQLite: "0", "1", ...), which says nothing
+// about which key it is once keys were added, dropped or listed in another order; such a key is identified by the table it
+// referenced before the edits instead, on both sides of the comparison.
+func fkLabel(sym, refTable string) string {
+	if _, err := strconv.ParseUint(sym, 10, 64); err == nil {
+		return "#->" + refTable
+	}
+	return sym
 }
